@@ -1,9 +1,10 @@
 (* Extraction of the executable models of C11 for the volume correspondence
    runs.  ExtrOcamlBasic only. *)
 From Coq Require Import Extraction ExtrOcamlBasic.
-From Martian Require Import Lib.Bytes K.ForkName K.Journal.
+From Martian Require Import Lib.Bytes K.ForkName K.Journal K.Attempt.
 Extraction Language OCaml.
 Extraction "model.ml"
   b2n n2b
   path_escape journal_encode fork_id fork_id_legacy parse_journal chunk_index
-  uniq_accepts journal_name fork_tok route_journal s_fork_us.
+  uniq_accepts journal_name fork_tok route_journal s_fork_us
+  atrace s_init.
